@@ -937,6 +937,23 @@ Proof.
     eexists. split; [exact E|exact HR2].
 Qed.
 
+Lemma step_peer_headers : forall c m sid es, R c m -> step_ok c m (EPeerHeaders sid es).
+Proof.
+  intros c m sid es HR. unfold step_ok. cbn [conn_step].
+  destruct (find_cs sid (cc_streams c)) as [s|] eqn:Ef; [|apply noop_ok; exact HR].
+  destruct (cs_forgotten s || cs_peer_reset s || cs_peer_ended s); [apply noop_ok; exact HR|].
+  cbn [fst snd mon_steps monitor_step ok mon_peer]. eexists. split; [reflexivity|].
+  pose proof HR as HR0. dR HR0. destruct es.
+  - unfold R. cbn. repeat split; auto; try lia.
+    + eapply F2_upd_found; eauto. intros m0 HS. apply SR_peer_ended. exact HS.
+    + apply Forall_upd_ms; auto.
+    + apply Forall_upd_ms; auto.
+    + apply desc_upd; [assumption|reflexivity].
+  - unfold R. cbn. repeat split; auto; try lia.
+    + rewrite <- (upd_ms_id sid (m_streams m)). eapply F2_upd_found; eauto.
+    + apply desc_upd; [assumption|reflexivity].
+Qed.
+
 Theorem step_ok_all : forall c m e, R c m -> step_ok c m e.
 Proof.
   intros c m e HR. destruct e.
@@ -952,4 +969,5 @@ Proof.
   - apply step_peer_data; assumption.
   - apply step_app_read; assumption.
   - apply step_app_close; assumption.
+  - apply step_peer_headers; assumption.
 Qed.
